@@ -115,10 +115,10 @@ static const char *vec_str(const int *v){
 }
 
 /* ------------------------------------------------------------------ signals */
-enum { H_MIX=SIG_NFAM, H_NAN, H_INF, H_BIG, H_LOUD, H_DENORM, F_VN, NFAM_ALL };   /* F_VN: noisy voiced signal (int16, all entry points) */
-static const char *famname(int f){ static const char *const h[]={"float-mix(NaN,Inf,1e10,denormal)","float-NaN","float-Inf","float-1e10","float-x200","float-denormal","noisy-voiced"}; return f<SIG_NFAM?sig_name[f]:h[f-SIG_NFAM]; }
+enum { H_MIX=SIG_NFAM, H_NAN, H_INF, H_BIG, H_LOUD, H_DENORM, F_VN, F_TOGGLE, NFAM_ALL };   /* F_VN: noisy voiced signal (int16, all entry points) */
+static const char *famname(int f){ static const char *const h[]={"float-mix(NaN,Inf,1e10,denormal)","float-NaN","float-Inf","float-1e10","float-x200","float-denormal","noisy-voiced","channel-toggle"}; return f<SIG_NFAM?sig_name[f]:h[f-SIG_NFAM]; }
 typedef struct { short *s16; opus_int32 *s24; float *f; } sigbuf;
-static sigbuf SB[NFAM_ALL]; static int sb_fs=-1, sb_ch=-1; static long SBN; static int g_siglen=9, g_tight=0;   /* signal length in tenths of a second */
+static sigbuf SB[NFAM_ALL]; static int sb_fs=-1, sb_ch=-1; static long SBN; static int g_siglen=9, g_tight=0, g_fecmode=0;   /* signal length in tenths of a second */
 static int FAMS[NFAM_ALL], NFAMS;
 static void load_signals(int Fs,int ch){
    int k; long i,n;
@@ -129,15 +129,29 @@ static void load_signals(int Fs,int ch){
       int fam=k,used=(fam==SIG_NOISE||fam==SIG_SQUARE||fam==SIG_SPEECH),q; sigbuf *b=&SB[fam];   /* the sweeps always use noise/square/speech */
       for(q=0;q<NFAMS;q++) if(FAMS[q]==fam) used=1;
       if (g_tight) used = (fam==F_VN||fam==SIG_NOISE||fam==SIG_SPEECH||fam==SIG_MULTITONE);
+      if (g_fecmode) used = (fam==F_TOGGLE||fam==SIG_SPEECH||fam==SIG_STEREOPAN);
       if (!used) continue;
       b->f=malloc(n*sizeof(float));
-      if (fam<SIG_NFAM || fam==F_VN){
+      if (fam<SIG_NFAM || fam==F_VN || fam==F_TOGGLE){
          siggen g; b->s16=malloc(n*sizeof(short)); b->s24=malloc(n*sizeof(opus_int32));
          if (fam==F_VN){   /* harmonics of a slowly moving 100-180 Hz pitch under a 3 Hz envelope plus envelope-following noise: keeps SILK at its bit cap */
             uint32_t l=4711u; double ph=0; long t; int c;
             for(t=0;t<SBN;t++){ double env=0.55+0.45*sin(2*M_PI*t/(0.31*Fs)), f0=140+40*sin(2*M_PI*t/(1.7*Fs)), hv;
                ph+=2*M_PI*f0/Fs; if(ph>2*M_PI) ph-=2*M_PI; hv=5000*env*(sin(ph)+0.5*sin(2*ph)+0.35*sin(3*ph)+0.2*sin(5*ph));
                for(c=0;c<ch;c++){ double nz; l=l*1664525u+1013904223u; nz=(double)((int)((l>>16)&0x7fff)-16384)/16384.0; b->s16[t*ch+c]=(short)sig_clip16((c?0.7:1.0)*hv+(2500*env+300)*nz); } }
+         } else if (fam==F_TOGGLE){
+            /* channels switch activity independently on a 20 ms grid: a voice common to all channels (mid active, side silent), a left-only voice and
+               a right-only voice are each gated on/off for 1-3 segments of 20 ms (LCG), so 40/60 ms packets contain 20 ms frames in which the
+               mid and side channels (or the one mono channel) differ in activity from their neighbours */
+            uint32_t l=90210u; double ph[3]={0,0,0}, gate[3]={0,0,0}; int on[3]={1,0,0}, hold[3]={0,0,0}; long t, seg=Fs/50; int c,q;
+            static const double F0[3]={130,225,170}, W[3]={0.37,0.53,0.71};
+            for(t=0;t<SBN;t++){
+               double vv[3];
+               if (t%seg==0) for(q=0;q<3;q++) if (hold[q]--<=0){ l=l*1664525u+1013904223u; on[q]=!on[q]; hold[q]=(int)((l>>16)%3); }
+               for(q=0;q<3;q++){ double f0=F0[q]*(1+0.15*sin(2*M_PI*W[q]*t/Fs)), s1; ph[q]+=2*M_PI*f0/Fs; if(ph[q]>2*M_PI) ph[q]-=2*M_PI;
+                  s1=sin(ph[q])+0.6*sin(2*ph[q])+0.4*sin(3*ph[q])+0.25*sin(4*ph[q])+0.15*sin(6*ph[q]); gate[q]+=((on[q]?1.0:0.0)-gate[q])*(480.0/Fs); vv[q]=gate[q]*s1; }
+               for(c=0;c<ch;c++){ double x=2500*vv[0]; if (ch==1) x+=5000*vv[1]; else if (c==0) x+=5500*vv[2]; else if (c==1) x+=6000*vv[1]; else x*=0.5; b->s16[t*ch+c]=(short)sig_clip16(x); }
+            }
          } else { sig_init(&g,fam,Fs,ch,(uint32_t)(fam*7+1)); sig_gen(&g,b->s16,(int)SBN); }
          for(i=0;i<n;i++){ b->s24[i]=(opus_int32)b->s16[i]*256; b->f[i]=b->s16[i]*(1.f/32768); }
       } else {
@@ -564,6 +578,34 @@ static void tight_item(long it,void *ctx){
    }
 }
 
+/* ------------------------------------------------------------------ in-band FEC (LBRR) family
+ * LBRR data is only written when FEC is on, loss% > 0, the rate is high enough and the frame is active, and its per-channel / per-20-ms flags only
+ * differ inside a packet when the packet holds >= 2 SILK frames and channel activity changes on the 20 ms grid.  That is 4-5 simultaneous settings
+ * plus a particular signal, outside the <=k grid.  So: every (FEC 1/2) x loss x duration (>= 40 ms; thorough also 80/120) x bitrate x (automatic /
+ * forced SILK) x (channels automatic / forced 2) on every stereo (Fs, application in VOIP/AUDIO) base (thorough: + mono VOIP bases), g_fframes
+ * frames of the channel-toggle family (thorough: + speech-like, stereo-pan).   item = (base index, configuration) */
+static int g_fframes;
+static void fec_item(long it,void *ctx){
+   static const int LOSSQ[2]={10,25}, LOSST[3]={10,25,50}, DURQ[2]={4,5}, DURT[4]={4,5,6,8}, BR[3]={OPUS_AUTO,32000,48000};
+   int nl=MC.tier?3:2, ndur=MC.tier?4:2, ncfg=2*nl*ndur*3*2*2, c=(int)(it%ncfg), bi=(int)(it/ncfg), base, v[NDIM], dflt[NDIM], k; (void)ctx;
+   int fec=1+c%2, loss, d, br, silk, fch; c/=2;
+   loss=(MC.tier?LOSST:LOSSQ)[c%nl]; c/=nl; d=(MC.tier?DURT:DURQ)[c%ndur]; c/=ndur; br=BR[c%3]; c/=3; silk=c%2; c/=2; fch=c%2;
+   if (bi<10) base=(bi/2)*6+3+(bi%2);            /* stereo, VOIP / AUDIO */
+   else { base=(bi-10)*6; if (fch) return; }      /* mono VOIP (thorough): forcing 2 channels is rejected there */
+   load_signals(FS[base/6],1+(base/3)%2); vec_default(dflt); vec_default(v);
+   v[D_FEC]=fec; v[D_LOSS]=loss; v[D_DUR]=d; v[D_BITRATE]=br; if(silk) v[D_MODE]=REF_MODE_SILK_ONLY; if(fch) v[D_FCH]=2;
+   for(k=0;k<(MC.tier?3:1);k++){
+      static const int ff[3]={F_TOGGLE,SIG_SPEECH,SIG_STEREOPAN};
+      encobj e; decobj D[14]; int nd,f,fam=ff[k],entry=(int)((it+k)%3); long pos=0;
+      mc_case("encode_or_decode","fec base=%d Fs=%d ch=%d app=%s cfg=[%s] signal=%s entry=%s frames=%d",base,FS[base/6],1+(base/3)%2,APPN[base%3],vec_str(v),famname(fam),ENTN[entry],g_fframes);
+      enc_fresh(&e,base);
+      if (apply_diff(&e,dflt,v)){ MC_INC(c_skipcfg); return; }
+      nd=dec_set(D,it*3+k,base);
+      MC_INC(c_runs);
+      for(f=0;f<g_fframes;f++) if (step(&e,v,fam,entry,&pos,D,nd,base,basename_(base),f)==1) break;
+   }
+}
+
 /* ------------------------------------------------------------------ self-checks */
 static void check_defaults(void){
    /* the "default" column of the dimension table must be what a fresh encoder reports (else "deviation" would be mislabelled) */
@@ -583,6 +625,8 @@ int main(int argc,char **argv){
    g_tlo=(int)mc_arg("--tlo",6); g_thi=(int)mc_arg("--thi",90); g_tframes=(int)mc_arg("--tframes",MC.tier?200:150); g_tcombos=(int)mc_arg("--tcombos",MC.tier?NTCOMBO_ALL:NTCOMBO_Q);
    { const char *r=mc_arg_s("--trates",MC.tier?"234":"4"); g_tnfs=0; for(;*r&&g_tnfs<5;r++) if(*r>='0'&&*r<='4') TFS[g_tnfs++]=*r-'0'; if(!g_tnfs) TFS[g_tnfs++]=4; }   /* digits = indices into {8,12,16,24,48} kHz */
    if (!strcmp(mode,"tight")){ g_tight=1; g_siglen=(int)mc_arg("--siglen",40); }
+   if (!strcmp(mode,"fec")){ g_fecmode=1; g_siglen=(int)mc_arg("--siglen",40); }
+   g_fframes=(int)mc_arg("--fframes",32);
    build_alphabet(full);
    check_defaults();
    NFAMS=0;
@@ -605,11 +649,12 @@ int main(int argc,char **argv){
    else if (!strcmp(mode,"hist")){ mc_par(30L*(NS+1),hist_item,NULL); }
    else if (!strcmp(mode,"ms")){ mc_par(ms_nitems()+(g_sweep>0?(long)g_nlay*15*NSWEEPCFG:0),ms_item,NULL); }
    else if (!strcmp(mode,"sweep")){ mc_par(30L*36,sweep_item,NULL); }
+   else if (!strcmp(mode,"fec")){ int nl=MC.tier?3:2, ndur=MC.tier?4:2; mc_par((long)2*nl*ndur*3*2*2*(MC.tier?15:10),fec_item,NULL); }
    else if (!strcmp(mode,"tight")){ mc_par((long)(g_thi-g_tlo+1)*g_tcombos*2*g_tnfs,tight_item,NULL); }
    else { fprintf(stderr,"unknown mode\n"); return 2; }
    {
       mc_ctr *st=mc_counter("states"),*ev=mc_counter("evaluations"),*dn=mc_counter("distinct_nontrivial"),*mm=NULL,*mr=NULL;
-      if (strcmp(mode,"ms")&&strcmp(mode,"sweep")&&strcmp(mode,"tight")){ mm=mc_counter("min_packets_per_base_and_tree_decoder"); mr=mc_counter("min_packets_per_base_and_ref_decoder"); }
+      if (strcmp(mode,"ms")&&strcmp(mode,"sweep")&&strcmp(mode,"tight")&&strcmp(mode,"fec")){ mm=mc_counter("min_packets_per_base_and_tree_decoder"); mr=mc_counter("min_packets_per_base_and_ref_decoder"); }
       *st=mc_set_count(S_states); *ev=*c_trans+*c_dec; *dn=mc_set_count(S_obs);
       if (mm){ long lo=-1,lor=-1; int b,d; for(b=0;b<30;b++) for(d=0;d<20;d++){ long x=MEET[b*20+d]; if(d<10){ if(lo<0||x<lo) lo=x; } else { if(lor<0||x<lor) lor=x; } } *mm=lo; *mr=lor; }
    }
